@@ -34,8 +34,11 @@ def description(rng: random.Random, n_ops=3, allow_body_scalar=True):
 
     def pick_schema():
         m = rng.random()
-        if m < 0.3:
-            return {"$ref": "#/components/schemas/S%d" % rng.randrange(2)}
+        if m < 0.45:
+            r = {"$ref": "#/components/schemas/S%d" % rng.randrange(2)}
+            if rng.random() < 0.5:      # keywords next to the reference (merged by the normaliser)
+                r[rng.choice(["maximum", "minLength"])] = rng.choice([2, 3])
+            return r
         return copy.deepcopy(rng.choice(pool))
 
     paths = {}
